@@ -23,6 +23,7 @@ RULE = ("JSON-supported types (scalar and list) x value alphabets, pairs over a 
 JTYPES = ["string", "wstring", "varint", "filesize", "unix_file_mode", "uint16", "uint32", "float", "boolean", "datetime", "bytes", "digest",
           "net.ipaddress", "net.ipnetwork", "uri", "path"]
 _n = [0]
+XFAIL = [()]
 
 
 def is_posix_path_spec(t, v):
@@ -61,7 +62,10 @@ def cases(tier, seed):
     N1 = rs("j/n", [["string", "s"], ["varint", "n"], ["float", "f"], ["boolean", "b"]], ["None", "None", "None", "None"])
     N2 = rs("j/n", [["string", "s"], ["varint", "n"], ["float", "f"], ["boolean", "b"]], ["'x'", "2**70", "0.25", "True"])
     N3 = rs("j/n", [["string", "s"], ["varint", "n"], ["float", "f"], ["boolean", "b"]], ["'5'", "5", "5.0", "False"])
-    shapes = {"A": A, "A2": A2, "B": B, "N1": N1, "N2": N2, "N3": N3}
+    # a record json.dumps refuses (int beyond the int -> str digit limit): the caller skips it and carries on with that type
+    JB = dict(rs("j/big", [["varint", "n"], ["string", "s"]], ["10**5000", "'refused'"]), xfail=True)
+    JO = rs("j/big", [["varint", "n"], ["string", "s"]], ["5", "'fine'"])
+    shapes = {"A": A, "A2": A2, "B": B, "N1": N1, "N2": N2, "N3": N3, "JB": JB, "JO": JO}
     for k in ((1, 2, 3, 4) if tier == "thorough" else (1, 2, 3)):
         for seq in itertools.product(shapes, repeat=k):
             yield {"kind": "seq", "t": "seq", "shape": list(seq), "records": [shapes[s] for s in seq]}
@@ -165,8 +169,14 @@ def produce(channel, records, descriptors, indent):
         p = JsonRecordPacker(indent=indent, pack_descriptors=descriptors)
         if descriptors:
             p.on_descriptor.add_handler(lambda desc: out.append(p.pack(desc) + "\n"))
-        for r in records:
-            line = p.pack(r)
+        for i, r in enumerate(records):
+            if i in XFAIL[0]:
+                try:
+                    line = p.pack(r)
+                except (ValueError, TypeError, OverflowError):
+                    continue
+            else:
+                line = p.pack(r)
             out.append(line + "\n")
         return "".join(out), None
     if channel == "adapter":
@@ -199,8 +209,14 @@ def produce(channel, records, descriptors, indent):
     if w is None:
         w = RecordWriter("jsonfile://" + path + ("?" + "&".join(q) if q else ""))
     try:
-        for r in records:
-            w.write(r)
+        for i, r in enumerate(records):
+            if i in XFAIL[0]:
+                try:
+                    w.write(r)
+                except (ValueError, TypeError, OverflowError):
+                    pass
+            else:
+                w.write(r)
         w.flush()
     finally:
         w.close()
@@ -221,6 +237,9 @@ def run_case(case):
         records = [recs.build_record(r) for r in case["records"]]
     except Exception as e:  # noqa: BLE001
         return {"ev": 1, "h": h, "nt": False, "out": "rejected:" + type(e).__name__}
+    XFAIL[0] = tuple(i for i, r in enumerate(case["records"]) if r.get("xfail"))
+    records_all = records
+    records = [r for i, r in enumerate(records_all) if i not in XFAIL[0]]
     expected = obs_list(records)
     viol = []
     outs = []
@@ -233,7 +252,7 @@ def run_case(case):
         path = None
         try:
             try:
-                text, path = produce(ch, records, descriptors, indent)
+                text, path = produce(ch, records_all, descriptors, indent)
             except Exception as e:  # noqa: BLE001
                 viol.append(("C14:write-raises:%s:%s" % (tkey, type(e).__name__), case, {"cfg": cfg, "channel": ch, "error": repr(e)[:200]}))
                 outs.append("write-raise")
